@@ -1988,6 +1988,12 @@ def r20_10(ctx: Ctx, rep: Report) -> None:
             busy.add(key)
             cfg = ctx.cfg(f)
             self_name = f.params[0] if f.params and f.cls is not None and f.kind != "staticmethod" else None
+            if f.parent is not None:
+                # a function defined inside a method reads the method's `self`
+                outer_ = f
+                while outer_.parent is not None:
+                    outer_ = outer_.parent
+                self_name = outer_.params[0] if outer_.params and outer_.cls is not None and outer_.kind != "staticmethod" else None
             INS: Dict[Node, Optional[Set[str]]] = {nd: None for nd in cfg.live}
             OUT: Dict[Node, Optional[Set[str]]] = {nd: None for nd in cfg.live}
 
@@ -2018,6 +2024,12 @@ def r20_10(ctx: Ctx, rep: Report) -> None:
                                 calls.append(("super:" + x.func.attr, c.methods[x.func.attr]))
                                 calls_by_name["super:" + x.func.attr] = x
                                 break
+                    if isinstance(x, ast.Call) and isinstance(x.func, ast.Name):
+                        # a call of a function defined inside this method: its body runs now, on the same object
+                        loc_ = next((h_ for h_ in ctx.prog.funcs if h_.name == x.func.id and h_.parent is not None and (h_.parent is f or h_.parent is f.parent)), None)
+                        if loc_ is not None and loc_ is not f:
+                            calls.append(("local:" + x.func.id, loc_))
+                            calls_by_name["local:" + x.func.id] = x
                     if isinstance(x, ast.Call) and isinstance(x.func, ast.Attribute) and isinstance(x.func.value, ast.Name) and x.func.value.id in ctx.prog.classes and x.args and src(x.args[0]) == self_name:
                         m_ = ctx.prog.classes[x.func.value.id].lookup_method(x.func.attr)
                         if m_ is not None:
@@ -2041,7 +2053,7 @@ def r20_10(ctx: Ctx, rep: Report) -> None:
                         # parameters the call leaves at a None/empty default are falsy inside the callee
                         fa = m_.node.args
                         pos = fa.posonlyargs + fa.args
-                        given = len(call.args) + (1 if name.startswith(("super:",)) or not name.startswith("cls:") else 0)
+                        given = len(call.args) + (1 if name.startswith(("super:",)) or not name.startswith(("cls:", "local:")) else 0)
                         kw = {k.arg for k in call.keywords}
                         for i_, a_ in enumerate(pos):
                             d_i = i_ - (len(pos) - len(fa.defaults))
